@@ -13,6 +13,7 @@ import (
 	"fmt"
 	"net/url"
 	"reflect"
+	"sort"
 	"strconv"
 	"strings"
 	"time"
@@ -171,11 +172,8 @@ func (g *Generator) generateStructSchemaWithRefs(t reflect.Type) *openapi3.Schem
 	var required []string
 	requiredSet := make(map[string]bool)
 
-	for i := 0; i < t.NumField(); i++ {
-		field := t.Field(i)
-		if !field.IsExported() {
-			continue
-		}
+	for _, jf := range jsonFields(t) {
+		field := jf.StructField
 
 		jsonName := getJSONFieldName(field)
 		if jsonName == "" {
@@ -192,7 +190,7 @@ func (g *Generator) generateStructSchemaWithRefs(t reflect.Type) *openapi3.Schem
 
 		schema.Properties[jsonName] = openapi3.NewSchemaRef("", fieldSchema)
 
-		if isRequiredField(field) && !requiredSet[jsonName] {
+		if isRequiredField(field) && !jf.viaPointer && !requiredSet[jsonName] {
 			required = append(required, jsonName)
 			requiredSet[jsonName] = true
 		}
@@ -503,12 +501,8 @@ func convertStructToSchemaWithDepthLimit(t reflect.Type, visited map[reflect.Typ
 	var required []string
 	requiredSet := make(map[string]bool)
 
-	for i := 0; i < t.NumField(); i++ {
-		field := t.Field(i)
-
-		if !field.IsExported() {
-			continue
-		}
+	for _, jf := range jsonFields(t) {
+		field := jf.StructField
 
 		jsonName := getJSONFieldName(field)
 		if jsonName == "" {
@@ -537,7 +531,7 @@ func convertStructToSchemaWithDepthLimit(t reflect.Type, visited map[reflect.Typ
 
 		schema.Properties[jsonName] = openapi3.NewSchemaRef("", fieldSchema)
 
-		if isRequiredField(field) && !requiredSet[jsonName] {
+		if isRequiredField(field) && !jf.viaPointer && !requiredSet[jsonName] {
 			required = append(required, jsonName)
 			requiredSet[jsonName] = true
 		}
@@ -622,13 +616,8 @@ func convertStructToSchemaWithVisited(t reflect.Type, visited map[reflect.Type]*
 	var required []string
 	requiredSet := make(map[string]bool) // Track required fields to avoid duplicates
 
-	for i := 0; i < t.NumField(); i++ {
-		field := t.Field(i)
-
-		// Skip unexported fields
-		if !field.IsExported() {
-			continue
-		}
+	for _, jf := range jsonFields(t) {
+		field := jf.StructField
 
 		// Get JSON field name
 		jsonName := getJSONFieldName(field)
@@ -650,7 +639,7 @@ func convertStructToSchemaWithVisited(t reflect.Type, visited map[reflect.Type]*
 		schema.Properties[jsonName] = openapi3.NewSchemaRef("", fieldSchema)
 
 		// Check if field is required (avoid duplicates)
-		if isRequiredField(field) && !requiredSet[jsonName] {
+		if isRequiredField(field) && !jf.viaPointer && !requiredSet[jsonName] {
 			required = append(required, jsonName)
 			requiredSet[jsonName] = true
 		}
@@ -715,6 +704,108 @@ func getJSONFieldName(field reflect.StructField) string {
 	}
 
 	return field.Name
+}
+
+// jsonField is a struct field as encoding/json sees it.
+type jsonField struct {
+	reflect.StructField
+	// viaPointer: promoted through an embedded pointer, hence absent when that pointer is nil.
+	viaPointer bool
+}
+
+// jsonFields lists the fields of struct type t that encoding/json encodes, in declaration order. The fields of
+// embedded structs that carry no JSON name are promoted into t. Among fields with the same JSON name the least
+// nested one wins, at equal depth a tagged one over untagged ones; when that does not single one out, encoding/json
+// drops all of them, and so does this function.
+func jsonFields(t reflect.Type) []jsonField {
+	type candidate struct {
+		field  jsonField
+		name   string
+		tagged bool
+		index  []int
+	}
+	type level struct {
+		typ        reflect.Type
+		index      []int
+		viaPointer bool
+	}
+	var candidates []candidate
+	visited := map[reflect.Type]bool{}
+	current := []level{{typ: t}}
+	for len(current) > 0 {
+		var next []level
+		for _, l := range current {
+			if visited[l.typ] {
+				continue
+			}
+			visited[l.typ] = true
+			for i := 0; i < l.typ.NumField(); i++ {
+				sf := l.typ.Field(i)
+				ft := sf.Type
+				viaPointer := false
+				if ft.Kind() == reflect.Ptr && ft.Name() == "" {
+					ft = ft.Elem()
+					viaPointer = true
+				}
+				if sf.Anonymous {
+					if !sf.IsExported() && ft.Kind() != reflect.Struct {
+						continue
+					}
+				} else if !sf.IsExported() {
+					continue
+				}
+				tag := sf.Tag.Get("json")
+				if tag == "-" {
+					continue
+				}
+				tagName := strings.Split(tag, ",")[0]
+				index := append(append([]int{}, l.index...), i)
+				if tagName != "" || !sf.Anonymous || ft.Kind() != reflect.Struct {
+					candidates = append(candidates, candidate{
+						field:  jsonField{StructField: sf, viaPointer: l.viaPointer},
+						name:   getJSONFieldName(sf),
+						tagged: tagName != "",
+						index:  index,
+					})
+					continue
+				}
+				next = append(next, level{typ: ft, index: index, viaPointer: l.viaPointer || viaPointer})
+			}
+		}
+		current = next
+	}
+
+	byName := map[string][]candidate{}
+	for _, c := range candidates {
+		byName[c.name] = append(byName[c.name], c)
+	}
+	var kept []candidate
+	for _, group := range byName {
+		sort.SliceStable(group, func(i, j int) bool {
+			if len(group[i].index) != len(group[j].index) {
+				return len(group[i].index) < len(group[j].index)
+			}
+			return group[i].tagged && !group[j].tagged
+		})
+		if len(group) > 1 && len(group[0].index) == len(group[1].index) && group[0].tagged == group[1].tagged {
+			continue // no dominant field: encoding/json drops all of them
+		}
+		kept = append(kept, group[0])
+	}
+	sort.Slice(kept, func(i, j int) bool {
+		a, b := kept[i].index, kept[j].index
+		for k := 0; k < len(a) && k < len(b); k++ {
+			if a[k] != b[k] {
+				return a[k] < b[k]
+			}
+		}
+		return len(a) < len(b)
+	})
+	fields := make([]jsonField, len(kept))
+	for i, c := range kept {
+		fields[i] = c.field
+	}
+	return fields
 }
 
 // isRequiredField determines if a field is required based on its type and tags
@@ -1040,13 +1131,8 @@ func (g *NestedRefGenerator) generateStructSchema(t reflect.Type) *openapi3.Sche
 	schema := openapi3.NewObjectSchema()
 	schema.Properties = make(openapi3.Schemas)
 
-	for i := 0; i < t.NumField(); i++ {
-		field := t.Field(i)
-
-		// Skip unexported fields
-		if !field.IsExported() {
-			continue
-		}
+	for _, jf := range jsonFields(t) {
+		field := jf.StructField
 
 		// Get JSON tag
 		jsonTag := field.Tag.Get("json")
@@ -1122,7 +1208,7 @@ func (g *NestedRefGenerator) generateStructSchema(t reflect.Type) *openapi3.Sche
 		schema.Properties[fieldName] = openapi3.NewSchemaRef("", fieldSchema)
 
 		// Handle required
-		if !omitempty {
+		if !omitempty && !jf.viaPointer {
 			schema.Required = append(schema.Required, fieldName)
 		}
 	}
